@@ -8,6 +8,15 @@ let fuel : nat =
 
 let undump (d : string) : string = String.map (fun c -> if c = '_' then ' ' else c) d
 
+(* printed text: st.out holds the written chunks newest first; iterative (outputs of a few MiB) *)
+let hex_of_chunks (chunks : n list list) : string =
+  let b = Buffer.create 4096 in
+  let hexd = "0123456789abcdef" in
+  List.iter (fun chunk ->
+    List.iter (fun x -> let i = int_of_n x in Buffer.add_char b hexd.[i lsr 4]; Buffer.add_char b hexd.[i land 15]) chunk)
+    (List.rev chunks);
+  if Buffer.length b = 0 then "-" else Buffer.contents b
+
 let rec render (b : Buffer.t) (v : value) : unit =
   match v with
   | VInt z -> Buffer.add_string b ("I" ^ string_of_z z)
@@ -33,7 +42,7 @@ let eval_line (id : string) (dumphex : string) : string =
   | Some prog ->
     (try
       let (o, st) = eval_program fuel prog in
-      let outp = "OUT " ^ hex_of_bytes st.out ^ " RES " in
+      let outp = "OUT " ^ hex_of_chunks st.out ^ " RES " in
       (match o with
        | OVal v ->
          if has_opaque v then id ^ " SKIP opaque-error-text"
